@@ -17,7 +17,7 @@ pub fn spec() -> Spec {
     Spec {
         prop: "C07",
         level: "exploration",
-        rule: "Independent ledger model written from the controller/token Solidity source (per exact ticker bytes: balances, allowances incl. 'spender == owner => unlimited' and the controller as intermediate spender, checked total supply, zero-address rules); the RPC methods lower-case the ticker, user calls use exact bytes. Every operation's success is predicted and compared with the receipt status; after every block brc20_balance, token.balanceOf, token.totalSupply and controller.getTickerAddress are compared with the model for every (pkscript/signer, ticker), and sum(balances) = supply = deposits - withdrawals. Operations: deposits, withdrawals (sufficient/exact/insufficient/unknown ticker), controller transfer/approve/transferFrom, direct token calls, adversarial mint/burn/ownership calls from inscriptions, signed transactions, a forwarder contract and eth_call as the indexer address; reorgs roll the model back. Ticker classes: ASCII, non-ASCII capitals, one byte, empty, longer than 32 bytes, four tickers that differ only by surrounding (ASCII / ideographic) white space, a ticker ending in a capital sigma (context-sensitive lower-casing) and its neighbour ending in the medial form. Holders have pkscripts of five shapes (34, 22, 2, 81 and 20 bytes - one of the 20-byte scripts spells the indexer's address) written in lower, upper and mixed-case hex; amounts include 0, 1, 2^64-1..2^64+8, 2^128-1, 2^128, 2^255, 2^256-2, 2^256-1. Non-trivial = operation whose predicted outcome depended on a non-zero balance or allowance; distinct by (op kind, predicted outcome, ticker class).",
+        rule: "Independent ledger model written from the controller/token Solidity source (per exact ticker bytes: balances, allowances incl. 'spender == owner => unlimited' and the controller as intermediate spender, checked total supply, zero-address rules); the RPC methods lower-case the ticker, user calls use exact bytes. Every operation's success is predicted and compared with the receipt status; after every block brc20_balance, token.balanceOf, token.totalSupply and controller.getTickerAddress are compared with the model for every (pkscript/signer, ticker), and sum(balances) = supply = deposits - withdrawals. Operations: deposits, withdrawals (sufficient/exact/insufficient/unknown ticker), controller transfer/approve/transferFrom, direct token calls, adversarial mint/burn/ownership calls from inscriptions, signed transactions, a forwarder contract and eth_call as the indexer address; reorgs roll the model back. Ticker classes: ASCII, non-ASCII capitals, one byte, empty, longer than 32 bytes, 6 000 bytes, four tickers that differ only by surrounding (ASCII / ideographic) white space, a ticker ending in a capital sigma (context-sensitive lower-casing) and its neighbour ending in the medial form. Holders have pkscripts of five shapes (34, 22, 2, 81 and 20 bytes - one of the 20-byte scripts spells the indexer's address) written in lower, upper and mixed-case hex; amounts include 0, 1, 2^64-1..2^64+8, 2^128-1, 2^128, 2^255, 2^256-2, 2^256-1. Non-trivial = operation whose predicted outcome depended on a non-zero balance or allowance; distinct by (op kind, predicted outcome, ticker class).",
         assumptions: vec!["the model is derived from the Solidity source shipped in the repository, not from the deployed bytecode".into()],
         exhaustive: false,
         min_nontrivial: 2,
@@ -126,8 +126,22 @@ struct TickerClass {
     key: Vec<u8>,
 }
 
+/// A ticker of several thousand bytes: legal (nothing bounds the length), and every per-ticker cost
+/// (look-up gas, call data, the token's name) grows with it.
+fn huge_ticker() -> (&'static str, &'static str) {
+    static H: std::sync::OnceLock<(String, String)> = std::sync::OnceLock::new();
+    let (l, u) = H.get_or_init(|| {
+        let l: String = "hugeticker".chars().cycle().take(6_000).collect();
+        let u = l.to_uppercase();
+        (l, u)
+    });
+    (l.as_str(), u.as_str())
+}
+
 fn tickers() -> Vec<TickerClass> {
+    let (huge_l, huge_u) = huge_ticker();
     vec![
+        TickerClass { name: "huge-6000-bytes", spellings: vec![huge_l, huge_u], key: huge_l.as_bytes().to_vec() },
         TickerClass { name: "ascii", spellings: vec!["ordi", "ORDI", "Ordi", "oRdI"], key: b"ordi".to_vec() },
         TickerClass { name: "non-ascii", spellings: vec!["ÄÖ", "äö", "Äö"], key: "äö".as_bytes().to_vec() },
         TickerClass { name: "one-byte", spellings: vec!["x", "X"], key: b"x".to_vec() },
@@ -274,7 +288,7 @@ impl<'a> Run<'a> {
                         let got = r.ok().and_then(|v| v.as_str().and_then(|s| U256::from_str_radix(s.trim_start_matches("0x"), 16).ok()));
                         rep.evaluations += 1;
                         if got != Some(want) {
-                            self.fail(rep, &format!("balance:{}", c.name), format!("brc20_balance(pkscript, {:?}) = {} but the ledger model says {}", sp, r.short(), want), json!({"pkscript": pk, "ticker_class": c.name}));
+                            self.fail(rep, &format!("balance:{}", c.name), format!("brc20_balance(pkscript, {:?}{}) = {} but the ledger model says {}", sp.chars().take(48).collect::<String>(), if sp.chars().count() > 48 { format!("... {} bytes", sp.len()) } else { String::new() }, r.short(), want), json!({"pkscript": pk, "ticker_class": c.name}));
                             return false;
                         }
                     }
